@@ -42,7 +42,7 @@ def main(tier, seed, args):
     rep = Report(PID, tier, seed, 'model_checking')
     c = ctx('on')
     nmeta = 5 if tier == 'quick' else 9
-    rep.bounds = {'htlcs': '2 symbolic / 3 concrete (extra HTLCs while paying)', 'metadata': 'every byte string of length 0..%d' % nmeta,
+    rep.bounds = {'htlcs': '2 symbolic / 3 concrete (extra HTLCs while paying)', 'metadata': 'every byte string of length 0..%d, plus every 10-byte string of the form type, 0xff, 8 length bytes' % nmeta,
                   'rpc_faults': '1 per run on any method (2 thorough), including inside wait_payment on the restart path',
                   'mpp_timeout': 'symbolic 1..2^32-1 s; restart attempt time symbolic (before or after now)',
                   'fairness': 'an RPC that is retried answers without error after at most the fault budget of consecutive errors',
@@ -75,16 +75,21 @@ def main(tier, seed, args):
         from .c20 import run_explorer
         H = sym.var('H')
         inv = InvoiceSpec(1, H, sym.var('inv_amount'))
-        for n in range(0, nmeta + 1):
+        for n in list(range(0, nmeta + 1)) + ['wide']:
             pc = []
+            wide = n == 'wide'
+            n = 10 if wide else n
             bs = [sym.var('m%d' % i) for i in range(n)]
             pc += [sym.and_(sym.le(0, b), sym.le(b, 255)) for b in bs]
+            if wide:
+                # a record whose length uses the widest form (0xff + 8 bytes): the only way to declare a length > 2^32
+                pc += [sym.lt(bs[0], 0xfd), sym.eq(bs[1], 0xff)]
             s = one_htlc(pc, invoice=None, extra_payload=[EXTRA[0], EXTRA[1], EXTRA[3]])
             s.raw_meta = bs
             s.raw_meta_pos = 1
             cfg = dict(htlcs=[s], invoices=[inv], store_init='free_absent')
             sc = SymMetaScenario(c, cfg, mons(), pc, bs)
-            name = 'arbitrary metadata[%d bytes]' % n
+            name = 'arbitrary metadata[%s]' % ('10 bytes: type, ff, 8 length bytes' if wide else '%d bytes' % n)
             ex = run_explorer(rep, c, sc, name, max_states=200000, time_budget=budget)
             scen_common.report(rep, PID, name, ex, sc)
             if rep.violations:
